@@ -115,3 +115,60 @@ Example C12_ns_old_order_refuted :
   updm true ex_op_live ex_op_new false = Ok (MNode 1 4 0 1 0 [] [[MNode 12 0 0 6 0 [] []]; []; []]).
 Proof. exact ns_old_order_refuted. Qed.
 Print Assumptions C12_ns_old_order_refuted.
+
+(* ---- multi-set trees at every depth (proofs/UpdateFromNSDeepProofs.v) ---- *)
+From Basyx Require Import proofs.UpdateFromNSDeepProofs.
+
+(* The result of the two-phase update is well-formed at EVERY depth (idShorts unique across all
+   sets of every object, number of sets as the class demands). *)
+Theorem C12_ns_wf : forall arity live new us, wfm arity live -> wfm arity new -> m_cls live = m_cls new ->
+  exists r, updm true live new us = Ok r /\ wfm arity r.
+Proof. exact updm_wfm. Qed.
+Print Assumptions C12_ns_wf.
+
+(* Equality at every depth, along paths of (set index, idShort) steps ([mresolve]): the result has
+   a node exactly where the other tree has one - in the same set -, with its class, idShort,
+   payload, qualifier / extension values and (below the root, or when asked) its source. *)
+Theorem C12_ns_equal : forall arity p live new us, wfm arity live -> wfm arity new -> m_cls live = m_cls new ->
+  exists res, updm true live new us = Ok res /\
+    match mresolve new p with
+    | None => mresolve res p = None
+    | Some n => exists r, mresolve res p = Some r /\ msame_attrs r n /\
+                          ((us = true \/ p <> []) -> m_src r = m_src n)
+    end.
+Proof. exact mequal_paths. Qed.
+Print Assumptions C12_ns_equal.
+
+(* Identity along paths: if every step of the path finds a same-class object in the SAME set of
+   the live tree ([mmatch]), the node is the live tree's object (oid; also its surviving qualifiers
+   / extensions); otherwise - new, class changed, or moved from another set somewhere along the
+   path - it is the other tree's object itself. *)
+Theorem C12_ns_identity : forall arity p live new us, wfm arity live -> wfm arity new -> m_cls live = m_cls new ->
+  exists res, updm true live new us = Ok res /\
+    forall n, mresolve new p = Some n ->
+      if mmatch live new p
+      then exists l r, mresolve live p = Some l /\ mresolve res p = Some r /\ m_oid r = m_oid l /\
+             (forall qk qo qv x, find_q qk (m_quals l) = Some (qo, qv) -> find_q qk (m_quals n) = Some x ->
+                                 exists v, find_q qk (m_quals r) = Some (qo, v))
+      else mresolve res p = Some n.
+Proof. exact midentity_paths. Qed.
+Print Assumptions C12_ns_identity.
+
+(* The single-set model is the one-set instance: on the trees of model/UpdateFrom.v ([emb]: one
+   child set per node) the multi-set update never raises and computes exactly [upd], so
+   C12_equal / C12_identity / C12_children / C12_wf are statements about [updm true] as well. *)
+Theorem C12_ns_single_set : forall new live us, wf live -> wf new ->
+  updm true (emb live) (emb new) us = Ok (emb (upd live new us)).
+Proof. exact updm_emb. Qed.
+Print Assumptions C12_ns_single_set.
+
+(* Non-vacuity of the path statements on the moved variable of C12_ns_old_order_refuted: the path
+   (input_variable, 'a') exists in the other tree, does not match in the live tree (there 'a' sits
+   in output_variable), and resolves to the other tree's object 12 afterwards; the old place is empty. *)
+Example C12_ns_path_example :
+  mmatch ex_op_live ex_op_new [(0, 0)] = false /\
+  (match updm true ex_op_live ex_op_new false with
+   | Ok res => (option_map m_oid (mresolve res [(0, 0)]), mresolve res [(1, 0)])
+   | Raised _ => (None, None)
+   end) = (Some 12, None).
+Proof. vm_compute. split; reflexivity. Qed.
